@@ -6,9 +6,12 @@
      np_all2          np.all over both axes of a rank-2 boolean array
      n_arg            the three forms of the argument of LineageConfig: dictionary (in insertion order), iterable, scalar
      pop_name i       f"pop_{i}"
-     dict_eqb         == of two dictionaries with distinct keys, given as association lists (order-insensitive)          *)
+     dict_eqb         == of two dictionaries with distinct keys, given as association lists (order-insensitive)
+     epoch_val        the attributes of an Epoch: times, pop_sizes and migration_rates as association lists in insertion order,
+                      the sorted names and their number
+     mig_in p q m     (p, q) in m;   sort_strings   sorted(list of str) (insertion sort by String.leb: code-point order)          *)
 From Coq Require Import String DecimalString.
-From Coq Require Import ZArith List Arith Bool.
+From Coq Require Import ZArith QArith List Arith Bool.
 Import ListNotations.
 Local Open Scope list_scope.
 
@@ -27,3 +30,20 @@ Definition dict_get (k : string) (d : list (string * Z)) : option Z :=
 Definition dict_eqb (a b : list (string * Z)) : bool :=
   Nat.eqb (length a) (length b) &&
   forallb (fun kv => match dict_get (fst kv) b with Some v => Z.eqb (snd kv) v | None => false end) a.
+
+Record epoch_val := mkEpochVal {
+  ev_start : Q;
+  ev_end : option Q;                            (* None = np.inf *)
+  ev_sizes : list (string * Q);
+  ev_names : list string;
+  ev_npops : nat;
+  ev_mig : list (string * string * Q)
+}.
+Definition mig_in (p q : string) (m : list (string * string * Q)) : bool :=
+  existsb (fun kv => String.eqb (fst (fst kv)) p && String.eqb (snd (fst kv)) q) m.
+Fixpoint insert_string (x : string) (l : list string) : list string :=
+  match l with
+  | [] => [x]
+  | y :: l' => if String.leb x y then x :: l else y :: insert_string x l'
+  end.
+Definition sort_strings (l : list string) : list string := fold_right insert_string [] l.
